@@ -58,7 +58,9 @@ CFG = {
     "rule": "each case is a HISTORY of AddLink and ShortestRoute calls on ONE Network (queries asked again after further links: joining links, "
             "shortcuts, faster links), every answer judged against the verified Bellman-Ford optimum and the brute-force nearest nodes of the network "
             "as it was at that moment; networks of 1-60 nodes plus 60-400-node road/town networks (several R-tree leaves, scales 1 and 1/128) with "
-            "query points tens to thousands of units from every node; shuffled link order and random link orientation, no self-loops/parallel links: "
+            "query points tens to thousands of units from every node; grids at false origins 2^30..2^40 (both signs) with query pairs closer than 1e-9 relative "
+            "that snap to different nodes; 30% of exact cases rescaled by 2^-30..2^30; routes re-verified after the whole history, link inputs passed as "
+            "windows of one flat buffer and compared bit for bit afterwards; shuffled link order and random link orientation, no self-loops/parallel links: "
             "hand corpus (route tests, DESIGN 6-link case, fast-long vs slow-short, components), grids with random deletions/detoured links/long chords, "
             "chains of diamonds whose one-link side is the most expensive, motorway-vs-slow-direct with a very slow spur (time option), 2-3 components, "
             "random float networks with bent links and speeds over 3 decades, end points perturbed on both sides of the 1e-9 identification threshold; "
